@@ -32,6 +32,7 @@ fn more_options() -> Vec<Gen> {
         compact(4, false, true),
         compact(2, true, true),
         one(Op::Optimize),
+        one(Op::RemapIndexK),
     ]
 }
 
@@ -57,6 +58,7 @@ pub fn run(ctx: &Ctx) -> Outcome {
         specs.push(Spec { name: "more-options", roots: vec![("L3", false), ("L3", true)], alphabet: more_options(), depth: 4 });
         specs.push(Spec { name: "distributed", roots: vec![("L3", false), ("L3", true)], alphabet: distributed(), depth: 3 });
     }
+    specs.reverse(); // smallest profile first
     run_check(ctx, "C13", Oracles { compaction: true, index_queries: true, structure: true, ..Default::default() }, specs, &[
         "index = btree on k; queried predicates: k = 0, k = 1, k = 2, k IS NULL, k >= 1 (no negations: the NULL handling of NOT over a btree is C19's finding)",
     ])
